@@ -33,6 +33,7 @@ pub mod c07;
 pub mod c09;
 pub mod c10;
 pub mod c11;
+pub mod c13;
 pub mod c17;
 pub mod c18;
 
@@ -47,6 +48,7 @@ pub fn run(property: &str, tier: Tier, seed: u64) -> Option<MonOut> {
         "C09" => Some(c09::run(tier, seed)),
         "C10" => Some(c10::run(tier, seed)),
         "C11" => Some(c11::run(tier, seed)),
+        "C13" => Some(c13::run(tier, seed)),
         "C17" => Some(c17::run(tier, seed)),
         "C18" => Some(c18::run(tier, seed)),
         _ => None,
@@ -95,6 +97,7 @@ pub fn replay_file(property: &str, path: &str) -> i32 {
         "C01" => c01::check_query(&qc, &si, &mut rep),
         "C03" => c03::check_query(&qc, &si, &mut rep),
         "C04" => c04::check_query(&qc, &si, &mut rep),
+        "C13" => c13::check_query(&qc, &si, &mut rep),
         _ => {
             eprintln!("property {property} has no single-case replay; see the replay file for the recorded input");
             return 2;
